@@ -96,6 +96,61 @@ func (k *checker) check(c progcheck.Case, o harness.Opts, allEnded bool) string 
 	return ""
 }
 
+// checkLiveness runs a script whose values the manual does not determine and
+// checks only what holds regardless: golua returns (no deadlock), no Go panic,
+// no race report, every status the main thread reads of a coroutine while no
+// coroutine is running is "suspended" or "dead" ("normal"/"running" would mean
+// a resumer that never got control back), and when the final statuses are all
+// "dead" no goroutine is left.
+func (k *checker) checkLiveness(c progcheck.Case) string {
+	tr, hung := runWatched(c, harness.Opts{})
+	if hung {
+		k.poisoned = true
+		return fmt.Sprintf("deadlock: golua did not return within %v (control never came back to the resumer)", 2*watchdog)
+	}
+	if tr.Panic != "" {
+		return "Go panic: " + tr.Panic
+	}
+	if log := RaceLog(); len(log) > k.raceSeen {
+		report := log[k.raceSeen:]
+		k.raceSeen = len(log)
+		if len(report) > 6000 {
+			report = report[:6000] + "…"
+		}
+		return "data race reported by the Go race detector while running this program:\n" + report
+	}
+	allDead := false
+	for _, e := range tr.Events {
+		// the main program's status probes: emit("sN", status(A), status(B))
+		if len(e) > 5 && strings.HasPrefix(e, `s:"s`) && e[4] >= '0' && e[4] <= '9' && e[5] == '"' {
+			if strings.Contains(e, `s:"normal"`) || strings.Contains(e, `s:"running"`) {
+				return "the main thread, with no coroutine running, reads the status of a coroutine as normal/running: a resumer never got control back: " + e
+			}
+			allDead = !strings.Contains(e, `s:"suspended"`)
+		}
+	}
+	if allDead && !k.poisoned {
+		if extra := settle(k.baseGorou); extra > 0 {
+			time.Sleep(200 * time.Millisecond)
+			if extra = settle(k.baseGorou); extra > 0 {
+				k.baseGorou += extra
+				return fmt.Sprintf("%d goroutine(s) left behind although every coroutine is dead", extra)
+			}
+		}
+	} else if !allDead {
+		// coroutines that stay suspended keep their goroutines: they become
+		// part of the baseline (after the finished ones have had time to go)
+		deadline := time.Now().Add(300 * time.Millisecond)
+		for runtime.NumGoroutine() > k.baseGorou && time.Now().Before(deadline) {
+			time.Sleep(2 * time.Millisecond)
+		}
+		if n := runtime.NumGoroutine(); n > k.baseGorou {
+			k.baseGorou = n
+		}
+	}
+	return ""
+}
+
 // kill templates: termination by quota inside a coroutine.
 var killTemplates = []struct {
 	name, src string
@@ -140,6 +195,12 @@ func TestC09(t *testing.T) {
 			t.Fatal(err)
 		}
 		rec.Eval()
+		if strings.HasPrefix(c.Note, "liveness:") {
+			if msg := k.checkLiveness(c); msg != "" {
+				rec.Violation("program", c, msg)
+			}
+			return
+		}
 		for i := 0; i < 5; i++ { // schedule-dependent failures: a few attempts
 			if msg := k.check(c, harness.Opts{}, false); msg != "" {
 				rec.Violation("program", c, msg)
@@ -162,6 +223,21 @@ func TestC09(t *testing.T) {
 		res := progcheck.Model(gc.Block, lines, nil)
 		if res.Unspecified != "" || res.Budget {
 			rec.Discard("unspecified: " + res.Unspecified)
+			if res.Unspecified != "" {
+				// the values are not determined by the manual, but the
+				// model-free clauses still are: control comes back, no race,
+				// legal statuses seen from the main thread, no goroutine left
+				// when every coroutine is dead
+				lc := progcheck.Case{Source: src, Note: "liveness:" + gc.Name}
+				rec.Class("script:liveness-only")
+				if msg := k.checkLiveness(lc); msg != "" {
+					nviol++
+					rec.Violation("program", lc, msg+"\n--- script "+gc.Name+" (values unspecified; liveness only) ---\n"+progcheck.Numbered(src))
+					if strings.HasPrefix(msg, "deadlock") {
+						nviol = 5
+					}
+				}
+			}
 			continue
 		}
 		c := progcheck.Case{Source: src, Expected: progcheck.ExpectedOf(res), Note: gc.Name}
